@@ -369,6 +369,12 @@ var textGen = rapid.OneOf(
 	rapid.StringOfN(rapid.RuneFrom([]rune("<>&\"'\\/\t\n\r   abcXYZ012")), 0, 12, -1),
 	rapid.StringOfN(rapid.RuneFrom([]rune("αβγδ→日本語éüñ🧬 xyz")), 0, 12, -1),
 	rapid.Just(""),
+	// code points that tools like to treat specially: byte order mark / zero-width no-break space, zero-width space and
+	// joiners, soft hyphen, no-break space, next line, directional marks, word joiner, replacement character,
+	// non-characters, private use, the last code point, NUL and DEL
+	rapid.StringOfN(rapid.RuneFrom([]rune("\ufeff\u200b\u200c\u200d\u00ad\u00a0\u0085\u200e\u202e\u2060\ufffd\ufffe\uffff\ue000\U0010ffff\x00\x7f ab")), 1, 8, -1),
+	// any Unicode scalar value
+	rapid.StringOfN(rapid.OneOf(rapid.Int32Range(0, 0xd7ff), rapid.Int32Range(0xe000, 0x10ffff)), 0, 6, -1),
 	// text that looks like an escape sequence of some serialisation but is plain text
 	rapid.SampledFrom([]string{"\\u003c", "a\\u0026b", "\\u003e1..5", "\\n", "\\\"", "\\\\", "&lt;", "&amp;amp;", "%3C%3E", "\\x00", "\\u2028", "{\"a\":1}", "null", "[]", "\\/", "$1", "%s %d"}),
 )
